@@ -42,7 +42,8 @@ const fragmentSize = 48
 // dirMarker ends the name of every directory fragment. It is not part of the
 // base64url alphabet, so no file name (which consists of that alphabet only)
 // can equal a directory name: the file of one key never occupies the place of
-// a directory another key needs, whatever prefixes the keys share.
+// a directory another key needs, whatever prefixes the keys share. On its own
+// it is the file name of the empty key (a file name cannot be empty).
 const dirMarker = "+"
 
 // fragmentingFileNamer returns a fileNamer that fragments long keys into directory structures.
@@ -53,6 +54,9 @@ func fragmentingFileNamer() fileNamer {
 
 func fragmentFileName(key string) string {
 	encoded := base64.RawURLEncoding.EncodeToString([]byte(key))
+	if encoded == "" {
+		return dirMarker
+	}
 	if len(encoded) <= 255 { // Common filesystem filename limit
 		return encoded
 	}
@@ -94,8 +98,8 @@ func fragmentedFileNameToKey(name string) (string, error) {
 		return string(decoded), nil
 	}
 
-	// Handle plain base64
-	decoded, err := base64.RawURLEncoding.DecodeString(name)
+	// Handle plain base64 (or the name of the empty key)
+	decoded, err := base64.RawURLEncoding.DecodeString(strings.TrimSuffix(name, dirMarker))
 	if err != nil {
 		return "", err
 	}
